@@ -24,6 +24,7 @@ func runC04(c *Ctx) {
 	c.ruleR04c("R04c leaf-contract")
 	c.ruleR04d("R04d end-means-end")
 	c.ruleR04e("R04e no-node-with-stale-error")
+	c.ruleR01g("R04f optional-keeps-the-empty-match") // 'succeeds precisely when some parse consumes the entire input'
 }
 
 func isReturn(in ssa.Instruction) bool { _, ok := in.(*ssa.Return); return ok }
